@@ -1,4 +1,5 @@
 import NumbersModel.Drv.A1
+import NumbersModel.Drv.Tokenizer
 
 open NumbersModel.Drv
 
@@ -6,6 +7,7 @@ def dispatch (line : String) : String :=
   let ws := (line.splitOn " ").filter (· ≠ "")
   let r : Option String := match ws with
     | "a1" :: rest => handleA1 rest
+    | "tok" :: rest => handleTok rest
     | _ => none
   match r with
   | some s => s
